@@ -556,11 +556,13 @@ Definition blend_cells (c : cfg) (cells : list val) (picks : list nat) : M val :
   end.
 
 (* ------------------------------------------------------------------ blend_cells (linear) *)
-(* _linear_blend: values = [[v] if isinstance(v, (float, int)) else v ...]; S = max(len(v)); every value of
+(* _linear_blend: values = [[v] if np.ndim(v) == 0 else v ...]; S = max(len(v)); every value of
    length S or 1 (scalars broadcast with np.tile); matched_values = np.empty((S, M)) filled column by column;
    blend = matched_values @ weights -- a FRESH array of shape (S,), also when every value is a scalar *)
+(* values = [[v] if np.ndim(v) == 0 else v for v in values]: numbers AND None are wrapped; a None entry becomes
+   nan when the row is stored into the float matrix (payload irrelevant here: 0) *)
 Definition lin_row (x : pv) : option (list Z) :=
-  match x with PVNum z => Some [z] | PVArr _ xs => Some xs | _ => None end.
+  match x with PVNum z => Some [z] | PVNone => Some [0%Z] | PVArr _ xs => Some xs | PVOther => None end.
 Fixpoint wsum (c : cfg) (rows : list (list Z)) (ws : list Z) (j : nat) : Z :=
   match rows, ws with
   | r :: rs, w :: wr => (mulop c (match r with [x] => x | _ => nth j r 0 end) w + wsum c rs wr j)%Z
